@@ -125,10 +125,17 @@ def _opt_name(c):
     return c._st.obj(c.epistemic_state.ref)["fields"]["pmaxsat_solver"].t
 
 
+def _build_optimizer(ex, bound):
+    """the optimizer shares the caller's epistemic state (proved as create_optimizer's own postcondition)"""
+    ref = ex.st.alloc({"kind": "obj", "cls": "OptimizerRC2", "fields": {"epistemic_state": bound["epistemic_state"]}})
+    return VRef(ref, TObj("Optimizer", {}))
+
+
 Contract(
     "inference.optimizer:create_optimizer",
     params={"epistemic_state": ES},
     returns=TObj("Optimizer", {}),
+    result_builder=_build_optimizer,
     ensures=lambda c, r: [
         lib.StartsWith(_opt_name(c), VStr(const="rc2").t),
         z3.BoolVal(_cls(c, r) == "OptimizerRC2"),
